@@ -330,12 +330,36 @@ func (e *Env) GoCheck(src []byte, pkgFiles Files) (class, msg string) {
 	}}
 	conf.Check(f.Name.Name, fset, files, nil)
 	if first != nil {
-		return "go-types:" + ErrClass(first.Error()), firstLine(first.Error())
+		class := ErrClass(first.Error())
+		if class == "multiple-defaults" || class == "duplicate-case" {
+			// which statement? (cl checks switch statements itself; select and type switches are gogen's)
+			if te, ok := first.(types.Error); ok {
+				kind := ""
+				goast.Inspect(f, func(n goast.Node) bool {
+					if n == nil || n.Pos() > te.Pos || n.End() < te.Pos {
+						return n != nil && n.Pos() <= te.Pos
+					}
+					switch n.(type) {
+					case *goast.SelectStmt:
+						kind = "-in-select"
+					case *goast.TypeSwitchStmt:
+						kind = "-in-type-switch"
+					case *goast.SwitchStmt:
+						kind = ""
+					}
+					return true
+				})
+				class += kind
+			}
+		}
+		return "go-types:" + class, firstLine(first.Error())
 	}
 	return "", ""
 }
 
 var pkgNameRe = regexp.MustCompile(`undefined: (fmt|os|strconv|strings|errors|sort|math|time|bytes|reflect|io|bufio)\b`)
+
+var xgoBuiltinRe = regexp.MustCompile(`undefined: (echo|print|println|printf|errorf|fprint|fprintln|fprintf|sprint|sprintln|sprintf|open|create|lines|blines|errorln|fatal|newRange|type)$`)
 
 var errPhrases = []string{
 	"missing parentheses around composite literal", "use of untyped nil", "initialization cycle", "invalid map key", "overflows", "truncated", "already declared", "permits only one iteration variable", "expects", "declared and not used", "imported and not used", "missing return", "assignment mismatch", "redeclared",
@@ -356,6 +380,9 @@ var errPhrases = []string{
 // phrase it contains (identifiers, numbers, quoted text and positions do not matter).
 func ErrClass(msg string) string {
 	msg = firstLine(msg)
+	if xgoBuiltinRe.MatchString(msg) {
+		return "undefined-xgo-builtin" // an XGo builtin (echo, println, …) used as a value is written by name
+	}
 	if pkgNameRe.MatchString(msg) {
 		return "undefined-package-name" // the name of an imported package does not resolve
 	}
